@@ -685,3 +685,24 @@ def h4_solves(ctx, at, obj):
     for k in range(at, K + 1):
         if ctx.finite(after[f'z{k}']) and ctx.finite(after[f'z{k + 1}']):
             ctx.oblige(f'rigid_gap{k}', ctx.eq(after[f'z{k + 1}'] - after[f'z{k}'], before[f'z{k + 1}'] - before[f'z{k}']))
+
+
+@harness('C01', 'H4_two_solves', cases=lambda tier: [dict(obj='inf')] + ([dict(obj='finite')] if tier == 'thorough' else []), funcs=FUNCS,
+         bounds='K=3 spherical lens carrying TWO marginal-ray-height solves (interior surface 2 and the image surface, symbolic heights); '
+                'the first radius is edited afterwards and update() is called once',
+         doc='after update() every solve holds: the paraxial marginal ray has the requested height on each solved surface (a later solve '
+             'has to see the surfaces as the earlier one left them)')
+def h4_two_solves(ctx, obj):
+    o, sp = make_lens(ctx, ('standard', 'standard', 'standard'), obj, None, stops=1)
+    K = sp['K']
+    h1, h2 = ctx.real('h1'), ctx.real('h2')
+    o.solves.add('marginal_ray_height', 2, height=h1)
+    o.solves.add('marginal_ray_height', K + 1, height=h2)
+    o.set_radius(ctx.real('R1_new', ne=0), 1)
+    o.update()
+    ya, ua = o.paraxial.marginal_ray()
+    g1, g2 = ctx.val(ya[2]), ctx.val(ya[K + 1])
+    if ctx.finite(g1) and ctx.finite(g2):
+        ctx.oblige('first_solve_holds', ctx.eq(g1, h1))
+        ctx.oblige('second_solve_holds', ctx.eq(g2, h2))
+    ctx.observe('g2', g2)
